@@ -403,24 +403,79 @@ func normalizeSetField(
 	p := parsePathWithOpts(name, opts)
 	old, err := p.GetValue(cfg, opts)
 	if err != nil {
-		if err.Reason() != ErrMissing {
+		switch err.Reason() {
+		case ErrMissing:
+			old = nil
+		case ErrExpectedObject:
+			// a prefix of name is already set to a primitive value
+			return raiseDuplicateKey(cfg, name)
+		default:
 			return err
 		}
-		old = nil
 	}
 
 	switch {
 	case !isNil(old) && isNil(val):
 		return nil
 	case isNil(old):
-		return p.SetValue(cfg, opts, val)
+		err := p.SetValue(cfg, opts, val)
+		if err != nil && err.Reason() == ErrExpectedObject {
+			// a prefix of name is already set to a primitive value
+			return raiseDuplicateKey(cfg, name)
+		}
+		return err
 	case isSub(old) && isSub(val):
-		cfgOld, _ := old.toConfig(opts)
-		cfgVal, _ := val.toConfig(opts)
-		return mergeConfig(opts, cfgOld, cfgVal)
+		return normalizeCombine(cfg, name, old.(cfgSub), val.(cfgSub))
 	default:
 		return raiseDuplicateKey(cfg, name)
 	}
+}
+
+// normalizeCombine adds the settings of from to the sub-configuration to, both
+// being defined by one input under overlapping names. Settings defined by both
+// are duplicates, independent of the order the names have been visited in.
+func normalizeCombine(cfg *Config, name string, to, from cfgSub) Error {
+	combine := func(old, v value, set func(value)) Error {
+		switch {
+		case isNil(v):
+			return nil
+		case isNil(old):
+			set(v)
+			return nil
+		case isSub(old) && isSub(v):
+			return normalizeCombine(cfg, name, old.(cfgSub), v.(cfgSub))
+		default:
+			return raiseDuplicateKey(cfg, name)
+		}
+	}
+
+	for k, v := range from.c.fields.dict() {
+		k, v := k, v
+		old, _ := to.c.fields.get(k)
+		err := combine(old, v, func(v value) {
+			to.c.fields.set(k, v.cpy(context{parent: to, field: k}))
+		})
+		if err != nil {
+			return err
+		}
+	}
+
+	arr := to.c.fields.array()
+	for i, v := range from.c.fields.array() {
+		i, v := i, v
+		var old value
+		if i < len(arr) {
+			old = arr[i]
+		}
+		err := combine(old, v, func(v value) {
+			to.c.fields.setAt(i, to, v.cpy(context{parent: to, field: fmt.Sprintf("%d", i)}))
+		})
+		if err != nil {
+			return err
+		}
+		arr = to.c.fields.array()
+	}
+	return nil
 }
 
 func normalizeStructValue(opts *options, ctx context, from reflect.Value) (value, Error) {
